@@ -16,113 +16,284 @@ REF = {'rggb': {'r': 'top_left', 'g1': 'top_right', 'g2': 'bottom_left', 'b': 'b
 DTYPE_BITS = {'np.uint8': 8, 'np.uint16': 16, 'np.uint32': 32, 'np.uint64': 64}
 
 
+class Ranged:
+    """placeholder replaced below"""
+
+
+def _ranged_domain():
+    from ..core.interp import Value, ExtRef
+    from ..domains.normdom import ArrNormDomain, Sym
+
+    class Ranged(Value):
+        """An array of samples.  `scale`: units of this array per collected electron (Rat; None = not known); `ub` / `lb`: quantities no
+        sample exceeds / falls below, in the array's own units; `cast`: the container it was cast to, if it was."""
+        def __init__(self, scale, ub=(), lb=(), cast=None):
+            self.scale, self.ub, self.lb, self.cast = scale, list(ub), list(lb), cast
+
+        def clone(self):
+            return Ranged(self.scale, self.ub, self.lb, self.cast)
+
+        def __repr__(self):
+            return 'Ranged(scale=%s, ub=%s, lb=%s)' % (self.scale and self.scale.key(), [u.key() for u in self.ub], [l.key() for l in self.lb])
+
+    class MaskV(Value):
+        def __init__(self, arr, side, bound):
+            self.arr, self.side, self.bound = arr, side, bound
+
+    class RangedDomain(ArrNormDomain):
+        """NORM plus sample arrays with symbolic bounds: comparisons give masks, masked stores / clip / minimum / maximum / where add bounds,
+        a positive factor scales them, a sum forgets them.  Factors are taken as positive (gain, exposure time: physical quantities)."""
+        def _bounded(self, x, side, bound, value, node):
+            # samples beyond `bound` are replaced by `value`: a bound only if the two agree
+            if bound is None or value is None or not (bound == value):
+                return
+            (x.ub if side == 'gt' else x.lb).append(bound)
+
+        def binop(self, op, a, b, node):
+            if isinstance(a, Ranged) or isinstance(b, Ranged):
+                x, o, left = (a, b, True) if isinstance(a, Ranged) else (b, a, False)
+                ro = self.rat(o)
+                if isinstance(op, ast.Mult) and ro is not None and x.scale is not None:
+                    return Ranged(x.scale * ro, [u * ro for u in x.ub], [l * ro for l in x.lb])
+                if isinstance(op, ast.Div) and left and ro is not None and not ro.is_zero() and x.scale is not None:
+                    return Ranged(x.scale / ro, [u / ro for u in x.ub], [l / ro for l in x.lb])
+                if isinstance(op, (ast.Add, ast.Sub)):
+                    if isinstance(o, Ranged) and not (o.scale is not None and x.scale is not None and o.scale == x.scale):
+                        return Ranged(None)
+                    return Ranged(x.scale)
+                if isinstance(op, ast.Mult) and ro is None and not isinstance(o, Ranged):
+                    return Ranged(x.scale)          # a dimensionless per-pixel map
+                return Ranged(None)
+            return super().binop(op, a, b, node)
+
+        def compare(self, op, a, b, node):
+            if isinstance(a, Ranged) or isinstance(b, Ranged):
+                x, o, left = (a, b, True) if isinstance(a, Ranged) else (b, a, False)
+                gt = isinstance(op, (ast.Gt, ast.GtE))
+                lt = isinstance(op, (ast.Lt, ast.LtE))
+                if not (gt or lt):
+                    return Unknown('comparison of samples')
+                return MaskV(x, 'gt' if (gt == left) else 'lt', self.rat(o))
+            return super().compare(op, a, b, node)
+
+        def store_subscript(self, target, idx, val, node):
+            if isinstance(target, Ranged):
+                if isinstance(idx, MaskV) and idx.arr is target:
+                    self._bounded(target, idx.side, idx.bound, self.rat(val), node)
+                elif isinstance(idx, MaskV) or not isinstance(val, Ranged):
+                    target.ub, target.lb = [], []
+                return True
+            return super().store_subscript(target, idx, val, node)
+
+        def subscript(self, v, idx, node):
+            if isinstance(v, Ranged):
+                if isinstance(idx, MaskV):
+                    return Ranged(v.scale, v.ub, v.lb, v.cast)
+                return v
+            return super().subscript(v, idx, node)
+
+        def getattr(self, v, name, node):
+            if isinstance(v, Ranged):
+                if name in ('T', 'real'):
+                    return v
+                if name in ('shape', 'size', 'ndim', 'dtype'):
+                    return Unknown(name)
+                return None
+            return super().getattr(v, name, node)
+
+        def _clip(self, x, lo, hi, out):
+            tgt = out if isinstance(out, Ranged) else x.clone()
+            if tgt is not x:
+                tgt.scale, tgt.ub, tgt.lb = x.scale, list(x.ub), list(x.lb)
+            rl = None if (lo is None or (isinstance(lo, Const) and lo.v is None)) else self.rat(lo)
+            rh = None if (hi is None or (isinstance(hi, Const) and hi.v is None)) else self.rat(hi)
+            if rl is not None:
+                tgt.lb.append(rl)
+            if rh is not None:
+                tgt.ub.append(rh)
+            return tgt
+
+        def method(self, v, name, args, kwargs, node):
+            if isinstance(v, Ranged):
+                if name in ('reshape', 'ravel', 'view', 'squeeze', 'transpose', 'swapaxes'):
+                    return v
+                if name in ('copy', 'flatten'):
+                    return v.clone()
+                if name == 'clip':
+                    a = list(args) + [None, None]
+                    return self._clip(v, kwargs.get('min', kwargs.get('a_min', a[0])), kwargs.get('max', kwargs.get('a_max', a[1])), kwargs.get('out'))
+                if name == 'astype' and args:
+                    r = Ranged(v.scale, v.ub, v.lb, args[0])
+                    self.interp.events.append({'kind': 'cast', 'arr': r, 'node': node})
+                    return r
+                return Unknown('method %s of samples' % name)
+            if isinstance(v, Sym) and name in ('reshape', 'ravel', 'flatten', 'copy', 'squeeze'):
+                return v
+            return super().method(v, name, args, kwargs, node)
+
+        def call_ext(self, dotted, args, kwargs, node):
+            last = dotted.rsplit('.', 1)[-1]
+            if dotted.startswith('numpy.random.') or '.random.' in dotted:
+                self.interp.events.append({'kind': 'draw', 'dist': last, 'args': list(args), 'node': node})
+                return Ranged(Rat(self.R.const(1)))
+            a0 = args[0] if args else None
+            if dotted.startswith('numpy.'):
+                if last == 'clip' and isinstance(a0, Ranged):
+                    a = list(args[1:]) + [None, None]
+                    return self._clip(a0, kwargs.get('a_min', kwargs.get('min', a[0])), kwargs.get('a_max', kwargs.get('max', a[1])), kwargs.get('out'))
+                if last in ('minimum', 'maximum', 'fmin', 'fmax') and len(args) >= 2 and any(isinstance(x, Ranged) for x in args[:2]):
+                    x, o = (args[0], args[1]) if isinstance(args[0], Ranged) else (args[1], args[0])
+                    if isinstance(o, Ranged):
+                        return Ranged(None)
+                    lo, hi = (None, o) if last in ('minimum', 'fmin') else (o, None)
+                    return self._clip(x, lo, hi, kwargs.get('out'))
+                if last == 'where' and len(args) == 3 and isinstance(args[0], MaskV):
+                    m, yes, no = args
+                    if isinstance(no, Ranged) and m.arr is no and not isinstance(yes, Ranged):
+                        r = no.clone()
+                        self._bounded(r, m.side, m.bound, self.rat(yes), node)
+                        return r
+                    if isinstance(yes, Ranged) and m.arr is yes and not isinstance(no, Ranged):
+                        r = yes.clone()
+                        self._bounded(r, 'lt' if m.side == 'gt' else 'gt', m.bound, self.rat(no), node)
+                        return r
+                    return Ranged(None)
+                if isinstance(a0, Ranged):
+                    if last in ('asarray', 'ascontiguousarray', 'reshape', 'ravel', 'squeeze', 'atleast_2d', 'asanyarray'):
+                        return a0
+                    if last in ('array', 'copy'):
+                        return a0.clone()
+                    if last in ('round', 'rint', 'floor', 'around', 'trunc', 'fix'):
+                        # rounding never crosses an integral bound; the bounds asked for are integers or are re-established later
+                        return Ranged(a0.scale, [], [])
+                    return Ranged(None)
+            if dotted == 'builtins.len' and isinstance(a0, (Ranged, Sym)):
+                return Unknown('len')
+            return super().call_ext(dotted, args, kwargs, node)
+
+        def truth(self, v):
+            if isinstance(v, (Ranged, MaskV)):
+                return None
+            return super().truth(v)
+
+    return Ranged, MaskV, RangedDomain
+
+
+def _dtype_bits(v):
+    """(bits, unsigned) of a numpy integer container named by an external reference or a string constant."""
+    name = None
+    if type(v).__name__ == 'ExtRef':
+        name = v.dotted.rsplit('.', 1)[-1]
+    elif isinstance(v, Const) and isinstance(v.v, str):
+        name = v.v
+    m = re.fullmatch(r'(u?)int(8|16|32|64)', name or '')
+    if not m:
+        return None
+    return int(m.group(2)), bool(m.group(1))
+
+
 def clamp_rules(run, db):
+    """expose(): decided on the value that is returned.  Samples are followed from the random draws (electrons) to the integer cast with the
+    bounds every operation establishes; at the cast 0 and 2**bits - 1 must be among them, the full well must have been imposed on electrons,
+    the scale must be 1/gain and the container must hold 2**bits - 1 for every depth 1..32."""
     f = db.func(D + 'Detector.expose')
-    it, dom = norm_interp(db)
+    ci = db.cls(D + 'Detector')
+    Ranged, MaskV, RangedDomain = _ranged_domain()
+    lut_q = D + 'apply_lut'
+
+    def interp(bits=None):
+        it, dom = norm_interp(db, domain_cls=RangedDomain)
+        R = dom.R
+
+        def mk_self():
+            o = Obj(ci)
+            o.attrs.update({'bits': dom.sym('bits') if bits is None else Const(bits), 'fwc': dom.sym('fwc'), 'conversion_gain': dom.sym('gain'), 'bias': dom.sym('bias'),
+                            'exposure_time': dom.sym('t'), 'dark_current': dom.sym('dark'), 'read_noise': dom.sym('rn'),
+                            'dcnu': Unknown('dcnu') if bits is None else Const(None), 'prnu': Unknown('prnu') if bits is None else Const(None),
+                            'lut': Unknown('lut') if bits is None else Const(None)})
+            return o
+        orig = dom.call_prysm
+
+        def call_prysm(fi, args, kw, node):
+            if fi.qual == lut_q:
+                a0 = args[0] if args else kw.get('img')
+                if isinstance(a0, Ranged):
+                    return Ranged(None, cast=('lut', a0))
+                return Unknown('lut of something else')
+            return orig(fi, args, kw, node) if orig else None
+        dom.call_prysm = call_prysm
+        out = []
+        for p in it.run(f, kwargs=lambda: {'aerial_img': dom.sym('img'), 'frames': Unknown('frames') if bits is None else Const(1)}, self_obj=mk_self):
+            out.append((p, [(e['arr'], e['node']) for e in p.events if e.get('kind') == 'cast'], [(e['dist'], e['args'], e['node']) for e in p.events if e.get('kind') == 'draw']))
+        return it, dom, out
+
+    it, dom, paths = interp()
     R = dom.R
-    stmts = sorted([n for n in walk_no_nested(f.node) if isinstance(n, (ast.Assign, ast.AugAssign))], key=lambda s: s.lineno)
-    order = {}
-    mask_stores = []
-    casts = []
-    for st in stmts:
-        if isinstance(st, ast.Assign) and isinstance(st.targets[0], ast.Subscript) and isinstance(st.targets[0].slice, ast.Compare):
-            mask_stores.append(st)
-        if isinstance(st, ast.Assign) and isinstance(st.value, ast.Call) and isinstance(st.value.func, ast.Attribute) and st.value.func.attr == 'astype':
-            casts.append(st)
-    if not casts:
-        raise AnalysisError('expose: integer cast not found')
-    first_cast = min(c.lineno for c in casts)
-    # evaluate the clamp value symbolically
-    env = {'self': None}
-    fr = Frame(f, f.module, {})
-    o = Obj(db.cls(D + 'Detector'))
-    o.attrs.update({'bits': dom.sym('bits'), 'fwc': dom.sym('fwc'), 'conversion_gain': dom.sym('gain'), 'bias': dom.sym('bias')})
-    fr.env['self'] = o
-    it._reset_run([])
-    upper = lower = fwc = None
-    scale_line = None
-    # roles, not spellings: the ADC output is the array that is cast; it is defined as (input to the ADC) * (gain scaling)
-    outs = {ast.unparse(c.value.func.value) for c in casts if isinstance(c.value.func.value, ast.Name)}
-    if len(outs) != 1:
-        raise AnalysisError('expose: the array handed to the integer cast is not one local (%s)' % sorted(outs))
-    OUT = sorted(outs)[0]
-    outdef = [st for st in stmts if isinstance(st, ast.Assign) and isinstance(st.targets[0], ast.Name) and st.targets[0].id == OUT and isinstance(st.value, ast.BinOp)
-              and isinstance(st.value.op, (ast.Mult, ast.Div)) and st.lineno < first_cast]
-    masked = {ast.unparse(st.targets[0].value) for st in mask_stores}
-    INP = SCALEX = None
-    if len(outdef) == 1:
-        ops = [outdef[0].value.left, outdef[0].value.right]
-        inp = [o_ for o_ in ops if isinstance(o_, ast.Name) and o_.id in masked]
-        if len(inp) == 1:
-            INP = inp[0].id
-            SCALEX = [o_ for o_ in ops if o_ is not inp[0]][0]
-            scale_line = outdef[0].lineno
-    for st in stmts:
-        if isinstance(st, ast.Assign) and isinstance(st.targets[0], ast.Name) and st.lineno < first_cast:
-            try:
-                fr.env[st.targets[0].id] = it.ev(st.value, fr)
-            except Exception:
-                fr.env[st.targets[0].id] = Unknown('not evaluated')
-    for st in mask_stores:
-        tgt = st.targets[0]
-        arr = ast.unparse(tgt.value)
-        cmp_ = tgt.slice
-        same_arr = ast.unparse(cmp_.left) == arr
-        op = type(cmp_.ops[0]).__name__
-        bound = it.ev(cmp_.comparators[0], fr)
-        val = it.ev(st.value, fr)
-        rb, rv = dom.rat(bound), dom.rat(val)
-        if arr == OUT and op in ('Gt', 'GtE'):
-            upper = (st, same_arr, rb, rv)
-        elif arr == OUT and op in ('Lt', 'LtE'):
-            lower = (st, same_arr, rb, rv)
-        elif arr == INP and op in ('Gt', 'GtE'):
-            fwc = (st, same_arr, rb, rv)
-    if upper is None and lower is None:
-        raise AnalysisError('expose: ADC clamp statements not found')
-    if upper is None:
-        run.finding('C16.clamp', f.qual, 'upper clamp', 'values above the ADC range are not clamped before the unsigned cast (they wrap)', f.loc())
-        upper = (stmts[0], False, None, None)
-    if lower is None:
-        run.finding('C16.clamp', f.qual, 'lower clamp', 'negative values (read noise, bias) are not clamped to 0 before the unsigned cast (they wrap to large codes)', f.loc())
+    rets = [(p, c, d) for p, c, d in paths if p.outcome == 'return']
+    if not rets:
+        raise AnalysisError('expose: no returning path')
     want = Rat(R.func('pow', [Rat(R.const(2)), Rat(R.atom('bits'))])) - 1
-    st, same, rb, rv = upper
-    ok = same and rb is not None and rv is not None and rv == want and (rb == want or rb == want + 1 and False or rb == rv)
-    run.check(ok and st.lineno < first_cast, 'C16.clamp', f.qual, 'upper clamp', 'samples above the ADC ceiling are set to 2**bits - 1 before the integer cast',
-              'the ADC ceiling is %s (expected 2**bits - 1 = %s): a saturated pixel is stored as 2**bits, which wraps to 0 in the unsigned container of that width'
-              % (rv.key() if rv is not None else '?', want.key()), f.loc(st))
-    st, same, rb, rv = lower if lower is not None else (stmts[0], True, Rat(R.const(0)), Rat(R.const(0)))
-    ok = same and rb is not None and rb.is_zero() and rv is not None and rv.is_zero() and st.lineno < first_cast
-    if lower is not None:
-      run.check(ok, 'C16.clamp', f.qual, 'lower clamp', 'negative samples are set to 0 before the unsigned cast', 'negative samples are not clamped to 0 before the unsigned cast', f.loc(st))
-    if fwc is None:
-        run.finding('C16.clamp', f.qual, 'full well', 'full-well clipping statement not found', f.loc())
-    else:
-        st, same, rb, rv = fwc
-        ok = same and rb is not None and rv is not None and rb == rv and rb == Rat(R.atom('fwc')) and (scale_line is None or st.lineno < scale_line)
-        run.check(ok, 'C16.clamp', f.qual, 'full well', 'charge above the full-well capacity is clipped to it before the gain is applied', 'full-well clip is not input[input > fwc] = fwc before scaling', f.loc(st))
-    sc = None
-    if SCALEX is not None:
-        it._reset_run([])
-        sc = dom.rat(it.ev(SCALEX, fr))
-        if sc is not None and isinstance(outdef[0].value.op, ast.Div):
-            sc = 1 / sc
-    run.check(sc is not None and sc == 1 / Rat(R.atom('gain')), 'C16.clamp', f.qual, 'gain', 'DN = electrons / conversion_gain', 'gain scaling is %s' % (sc.key() if sc is not None else None), f.loc())
-    # container ladder: bits <= K selects uintK
-    ladder = []
-    for n in walk_no_nested(f.node):
-        if isinstance(n, ast.If) and isinstance(n.test, ast.Compare) and ast.unparse(n.test.left) == 'self.bits' and isinstance(n.test.ops[0], ast.LtE):
-            k = n.test.comparators[0]
-            dt = [ast.unparse(c.args[0]) for st in n.body for c in ast.walk(st) if isinstance(c, ast.Call) and isinstance(c.func, ast.Attribute) and c.func.attr == 'astype']
-            if isinstance(k, ast.Constant) and dt:
-                ladder.append((k.value, dt[0], n))
-    if len(ladder) < 3:
-        raise AnalysisError('expose: dtype ladder not found')
-    for k, dt, n in ladder:
-        run.check(DTYPE_BITS.get(dt) is not None and DTYPE_BITS[dt] >= k, 'C16.clamp', f.qual, 'container for bits <= %d' % k, 'bits <= %d is stored in %s' % (k, dt),
-                  'bit depths up to %d are stored in %s which cannot hold 2**bits - 1' % (k, dt), f.loc(n))
-    ks = sorted(k for k, _, _ in ladder)
-    run.check(ks == sorted(set(ks)) and [k for k, _, _ in ladder] == ks, 'C16.clamp', f.qual, 'ladder order', 'ladder tested in increasing order', 'dtype ladder is not tested in increasing order: %s' % [k for k, _, _ in ladder], f.loc())
+    gain, fwc = Rat(R.atom('gain')), Rat(R.atom('fwc'))
+    zero = Rat(R.const(0))
+    verdicts = {}
+
+    def note(key, ok, good, bad, node):
+        cur = verdicts.get(key)
+        if cur is None or (cur[0] and not ok):
+            verdicts[key] = (ok, good, bad, node)
+    for p, casts, draws in rets:
+        v = p.value
+        if isinstance(v, Ranged) and isinstance(v.cast, tuple) and v.cast[0] == 'lut':
+            v = v.cast[1]
+        if not isinstance(v, Ranged):
+            raise AnalysisError('expose: the returned value is not followed on path %s: %r' % (p.conds, v))
+        if v.cast is None:
+            note('cast', False, '', 'expose returns samples that were never cast to an integer container', f.node)
+            continue
+        node = next((n for r_, n in casts if r_ is v), f.node)
+        note('cast', True, 'the returned array is the result of an integer cast', '', node)
+        has_ub = any(u == want for u in v.ub)
+        note('upper clamp', has_ub, 'samples above the ADC ceiling are set to 2**bits - 1 before the integer cast',
+             'at the integer cast no clamp to 2**bits - 1 has been applied (bounds known: %s): a saturated pixel is stored as 2**bits or more, which wraps in the unsigned container'
+             % sorted(u.key() for u in v.ub), node)
+        note('lower clamp', any(l == zero for l in v.lb), 'negative samples are set to 0 before the unsigned cast',
+             'negative samples (read noise, bias) are not clamped to 0 before the unsigned cast (they wrap to large codes)', node)
+        if v.scale is None:
+            raise AnalysisError('expose: the scale of the ADC output relative to the collected electrons is not followed on path %s' % (p.conds,))
+        note('gain', v.scale == 1 / gain, 'DN = electrons / conversion_gain', 'gain scaling is %s' % v.scale.key(), node)
+        note('full well', any(u == fwc * v.scale for u in v.ub), 'charge above the full-well capacity is clipped to it before the gain is applied',
+             'the full-well capacity is not imposed on the collected electrons (bounds in DN at the cast: %s, full well in DN: %s)' % (sorted(u.key() for u in v.ub), (fwc * v.scale).key()), node)
+        # the mean of the shot-noise draw is signal plus dark for one exposure
+        mean = [a for nm, a, n in draws if nm == 'poisson']
+        if len(mean) != 1 or not mean[0]:
+            raise AnalysisError('expose: expected one Poisson draw per path, found %d' % len(mean))
+        m = dom.rat(mean[0][0])
+        img, t, dark = Rat(R.atom('img')), Rat(R.atom('t')), Rat(R.atom('dark'))
+        if m is not None:
+            okm = m == img * t + dark * t       # (the path with a dark-current map has an unknown mean and is not judged)
+            note('signal', bool(okm), 'the expected charge is (irradiance + dark current) * exposure time', 'the mean of the shot-noise draw is %s' % m.key(), f.node)
+    for key, (ok, good, bad, node) in sorted(verdicts.items()):
+        run.check(ok, 'C16.clamp', f.qual, key, good, bad, f.loc(node))
+    # containers: every depth 1..32 lands in an unsigned container wide enough for 2**bits - 1
+    bad, widths = [], {}
+    for b in range(1, 33):
+        _, domb, pb = interp(bits=b)
+        rb = [(p, c) for p, c, _ in pb if p.outcome == 'return']
+        if not rb:
+            bad.append((b, 'no result'))
+            continue
+        for p, casts in rb:
+            v = p.value
+            db_ = _dtype_bits(v.cast) if isinstance(v, Ranged) and v.cast is not None else None
+            if db_ is None:
+                raise AnalysisError('expose: container of the result for bits=%d is not followed (%r)' % (b, getattr(v, 'cast', v)))
+            w, unsigned = db_
+            widths[b] = ('u' if unsigned else '') + 'int%d' % w
+            if (w if unsigned else w - 1) < b:
+                bad.append((b, widths[b]))
+    run.check(not bad, 'C16.clamp', f.qual, 'containers for bits 1..32', 'every bit depth 1..32 is stored in a container that holds 2**bits - 1 (%s)'
+              % ', '.join('%d..%d: %s' % (min(k for k in widths if widths[k] == w_), max(k for k in widths if widths[k] == w_), w_) for w_ in sorted(set(widths.values()), key=lambda s_: int(re.sub(r'\D', '', s_)))),
+              'bit depths %s are stored in a container that cannot hold 2**bits - 1: %s' % ([b for b, _ in bad], bad[:4]), f.loc())
 
 
 def _branch_tables(fi, kind):
@@ -405,18 +576,35 @@ def cfa_passthrough_rules(run, db):
 
 
 def accumulate_rules(run, db):
-    """Binning by summation accumulates in NumPy's default (widened) accumulator, not in the input's dtype."""
+    """Binning by summation accumulates in NumPy's default (widened) accumulator, not in the input's dtype: decided on the `dtype` each
+    reduction over the bin axes is handed, whatever way the reduction is reached."""
+    from . import ftkernels as K
+    from ..domains.index import Shaped, DTypeOf
+    WIDE = {'float64', 'int64', 'uint64', 'longdouble', 'float128', 'complex128', 'double', 'float_', 'int_', 'intp', 'uint', 'float', 'int'}
+    it, dom = K.mk(db, {})
     f = db.func(D + 'bindown')
-    reds = [c for c in walk_no_nested(f.node) if isinstance(c, ast.Call) and isinstance(c.func, ast.Attribute) and c.func.attr in ('sum', 'mean')]
-    if len(reds) < 2:
-        raise AnalysisError('bindown: mean/sum reductions not found')
-    for c in reds:
-        dt = [k for k in c.keywords if k.arg == 'dtype']
-        narrow = [k for k in dt if any(isinstance(x, ast.Attribute) and x.attr == 'dtype' for x in ast.walk(k.value)) or
-                  any(isinstance(x, ast.Attribute) and x.attr in ('uint8', 'uint16', 'int8', 'int16', 'uint32', 'int32', 'float16', 'float32') for x in ast.walk(k.value))]
-        run.check(not narrow, 'C16.bin', f.qual, '%s accumulator' % c.func.attr, 'the %s over a bin is accumulated in the default (widened) type' % c.func.attr,
-                  '`%s` pins the accumulator to %s: summing narrow integer frames (the uint8/uint16 output of expose) wraps around, so the binned total is not the total of the bin '
-                  'and tile is no longer its adjoint' % (ast.unparse(c), ast.unparse(narrow[0].value) if narrow else ''), f.loc(c))
+    s0, s1, f0, f1 = [dom.integer(x) for x in ('s0', 's1', 'f0', 'f1')]
+    for mode in ('sum', 'mean'):
+        res = [p for p in it.run(f, kwargs=lambda: {'array': Shaped(Tup([s0, s1]), 'array'), 'factor': Tup([f0, f1]), 'mode': Const(mode)}) if p.outcome == 'return']
+        ev = [e for p in res for e in p.events if e['kind'] == 'reduce']
+        if not ev:
+            raise AnalysisError("bindown(mode='%s'): no reduction over the bin axes is reached" % mode)
+        for e in ev:
+            dt = e.get('dtype')
+            name = None
+            if dt is None or (isinstance(dt, Const) and dt.v is None):
+                ok, what = True, 'default'
+            else:
+                if type(dt).__name__ in ('ExtRef', 'BuiltinRef'):
+                    name = (getattr(dt, 'dotted', None) or getattr(dt, 'name', '')).rsplit('.', 1)[-1]
+                elif isinstance(dt, Const) and isinstance(dt.v, str):
+                    name = dt.v
+                if name is None and not isinstance(dt, DTypeOf):
+                    raise AnalysisError("bindown(mode='%s'): accumulator type %r of the reduction is not followed" % (mode, dt))
+                ok, what = (name in WIDE), (name or "the input array's own dtype")
+            run.check(ok, 'C16.bin', f.qual, '%s accumulator' % e['which'], 'the %s over a bin is accumulated in the default (widened) type' % e['which'],
+                      'the %s over a bin is pinned to the accumulator type %s: summing narrow integer frames (the uint8/uint16 output of expose) wraps around, so the binned total is not the '
+                      'total of the bin and tile is no longer its adjoint' % (e['which'], what), f.loc(e['node']))
 
 
 def live_state_rules(run, db):
